@@ -192,6 +192,14 @@ class ScriptedApp:
                 err = await self._send(inst, send, op[1])
                 if err is not None and not (len(op) > 2 and op[2] == "tolerate"):
                     raise err
+            elif name == "send_if_ext":
+                if op[1] in inst.scope.get("extensions", {}):
+                    await self._send_or_raise(inst, send, op[2])
+            elif name == "start_with_trailers":
+                msg = dict(op[1])
+                if op[2] and "http.response.trailers" in inst.scope.get("extensions", {}):
+                    msg["trailers"] = True
+                await self._send_or_raise(inst, send, msg)
             elif name == "respond":
                 status, headers, chunks = op[1], op[2], op[3]
                 await self._send_or_raise(inst, send, {"type": "http.response.start",
